@@ -347,8 +347,40 @@ def check_damage(out, case):
         runner.rmtree(cdir)
 
 
+def check_same_names(out, case):
+    """Two members of one archive may carry the same name (zip allows it, `unzip -l` lists both)."""
+    import zipfile, warnings
+    cdir = runner.new_case_dir()
+    base = os.path.join(cdir, "t")
+    os.mkdir(base)
+    try:
+        with warnings.catch_warnings():
+            warnings.simplefilter("ignore")
+            with zipfile.ZipFile(os.path.join(base, "dup.zip"), "w") as z:
+                z.writestr("same.txt", "first")
+                z.writestr("other.txt", "zz")
+                z.writestr("same.txt", "second!!")
+        rows = c05.run_rows(out, base, "select name, size from . archives into list", 2, "C19")
+        if rows is None:
+            return
+        got = sorted(r for r in rows if r[0].startswith("["))
+        want = sorted([("[dup.zip] same.txt", "5"), ("[dup.zip] other.txt", "2"), ("[dup.zip] same.txt", "8")])
+        if got != want:
+            out.add("C19/rows/member/same-name-collapsed", query="select name, size from . archives", got=[list(r) for r in got],
+                    want=[list(r) for r in want])
+        out.nt_keys = ["same-names"]
+        out.classes.append("members-with-one-name")
+        out.sample = {"archive": "dup.zip", "member_rows": got}
+    finally:
+        runner.rmtree(cdir)
+
+
 def check(case):
     out = Outcome()
+    if case["kind"] == "same-names":
+        check_same_names(out, case)
+        out.nontrivial = True
+        return out
     if case["kind"] == "damage":
         check_damage(out, case)
         out.nontrivial = bool(out.nt_keys)
